@@ -228,5 +228,58 @@ Definition conn_run (c : val) : val :=
                         (f', snd acc ++ [VL [match r with Some cu => enc_cursor cu | None => VL [] end; enc_sfile f']]))
                      (map dec_cop (vL (vnth 2 c))) (FNone, []))).
 
+(* ---------- a process start of the connector: start-up resync, then rounds of relayMinterEvents ---------- *)
+(* the claims of a round as the committer receives them: (kind event-nonce height [batch nonce | valset nonce]) *)
+Definition enc_claim (c : cursor) (h : Z) (e : bev) : list val :=
+  match e with
+  | BDeposit => [VL [VI 1; VI (cu_nonce c); VI h]]
+  | BBatch => [VL [VI 2; VI (cu_nonce c); VI h; VI (cu_batch c)]]
+  | BValset n => [VL [VI 3; VI (cu_nonce c); VI h; VI n]]
+  | BNone => []
+  end.
+Definition claims_block (c : cursor) (h : Z) (txs : list mtx) : cursor * list val :=
+  fold_left (fun (acc : cursor * list val) t =>
+               let e := classify t in (apply_ev (fst acc) e, snd acc ++ enc_claim (fst acc) h e)) txs (c, []).
+Fixpoint claims_blocks (c : cursor) (h : Z) (blocks : list (list mtx)) : cursor * list val :=
+  match blocks with
+  | [] => (c, [])
+  | txs :: rest =>
+      let (c1, l1) := claims_block (at_block c h) h txs in
+      let (c2, l2) := claims_blocks c1 (h + 1) rest in
+      (c2, l1 ++ l2)
+  end.
+Definition relay_claims (chain : list (list mtx)) (c : cursor) (latest : Z) : cursor * list val :=
+  claims_blocks c (cu_block c + 1) (blocks_between chain (cu_block c) (Z.min latest (cu_block c + 100))).
+
+Definition vset_c (l : list val) : val := VL (VB [115;101;116]%N :: l).
+
+(* op 4: (4 ack latest0 (latest1 ...)) ; ops 2 / 3: the status file is corrupted / removed between two starts.
+   Output per op: (cursor after the resync, ((cursor claims) per round), status file) *)
+Definition relay_step (start : cursor) (chain : list (list mtx)) (f : sfile) (ov : val) : sfile * val :=
+  match vI (vnth 0 ov) with
+  | 4 =>
+      let (c0, committed) := resync chain (load start f) (vI (vnth 1 ov)) (vI (vnth 2 ov)) in
+      let f0 := if committed then FOk c0 else f in
+      let '(cN, fN, outs) :=
+          fold_left (fun (acc : cursor * sfile * list val) lv =>
+                       let '(c, _, out) := acc in
+                       let (c', claims) := relay_claims chain c (vI lv) in
+                       (* every scanned block, or the commit after the claims were handed over, persists the cursor;
+                          a round that scans nothing leaves the file alone *)
+                       (c', (if cu_block c' =? cu_block c then snd (fst acc) else FOk c'), out ++ [VL [enc_cursor c'; vset_c claims]]))
+                    (vL (vnth 3 ov)) (c0, f0, []) in
+      (fN, VL [enc_cursor c0; VL outs; enc_sfile fN])
+  | 2 => (FCorrupt, VL [VL []; VL []; enc_sfile FCorrupt])
+  | _ => (FNone, VL [VL []; VL []; enc_sfile FNone])
+  end.
+
+Definition relay_run (c : val) : val :=
+  let cfg := vnth 0 c in
+  let start := mkCur (vI (vnth 0 cfg)) (vI (vnth 1 cfg)) (vI (vnth 2 cfg)) (vI (vnth 3 cfg)) in
+  let chain := map (fun b => map dec_mtx (vL b)) (vL (vnth 1 c)) in
+  VL (snd (fold_left (fun (acc : sfile * list val) ov =>
+                        let (f', out) := relay_step start chain (fst acc) ov in (f', snd acc ++ [out]))
+                     (vL (vnth 2 c)) (FNone, []))).
+
 Definition cmd_run (c : val) : val :=
   vbool (cmd_valid (vB (vnth 0 c)) (vB (vnth 1 c)) (vB (vnth 2 c)) (vI (vnth 3 c)) (vgetbool (vnth 4 c))).
